@@ -496,8 +496,7 @@ bool bloom_filter_alloc<A>::is_empty() const {
 template<typename A>
 uint64_t bloom_filter_alloc<A>::get_bits_used() {
   if (is_dirty_) {
-    num_bits_set_ = bit_array_ops::count_num_bits_set(bit_array_, capacity_bits_ >> 3);
-    is_dirty_ = false;
+    update_num_bits_set(bit_array_ops::count_num_bits_set(bit_array_, capacity_bits_ >> 3));
   }
   return num_bits_set_;
 }
@@ -649,7 +648,13 @@ void bloom_filter_alloc<A>::internal_update(uint64_t h0, uint64_t h1) {
     const uint64_t hash_index = ((h0 + i * h1) >> 1) % num_bits;
     bit_array_ops::set_bit(bit_array_, hash_index);
   }
-  is_dirty_ = true;
+  if (!is_dirty_) {
+    is_dirty_ = true;
+    // mark the count in wrapped memory as stale too, so that another view of the same memory recounts
+    if (memory_ != nullptr) {
+      copy_to_mem(DIRTY_BITS_VALUE, memory_ + NUM_BITS_SET_OFFSET_BYTES);
+    }
+  }
 }
 
 // QUERY-AND-UPDATE METHODS
